@@ -140,6 +140,8 @@ size_t svalue_save_size (const svalue_t * v) {
       {
         char buf[256];
         sprintf (buf, "%g", v->u.real);
+        if (strspn (buf, "-0123456789") == strlen (buf))
+          strcat (buf, ".0"); /* as in save_svalue(): integral values get a ".0" */
         return strlen (buf) + 1; /* 1 for comma/colon */
       }
 
@@ -243,6 +245,8 @@ void save_svalue (svalue_t * v, char **buf) {
     case T_REAL:
       {
         sprintf (*buf, "%g", v->u.real);
+        if (strspn (*buf, "-0123456789") == strlen (*buf))
+          strcat (*buf, ".0"); /* "%g" prints integral floats like integers: keep them floats when restored */
         (*buf) += strlen (*buf);
         return;
       }
